@@ -12,6 +12,7 @@ from .. import c04_child, lib, ref
 from ..ref import Graph
 
 LEVEL = "exploration"
+TECHNIQUE = 'runtime monitoring: round-trip monitor comparing a pre-serialization snapshot with the loaded dataset for every format (full/minimal/minimal_soln_cat/auto by threshold), in memory and through zanj files, datasets and collections'
 RULE = ("datasets from every generator and harness-built ones (ragged solutions incl. one-cell, two-cell and maximal-length paths), "
         "with/without per-maze generation_meta, with/without collected metadata, lengths {1,2,5,17,100,101}, under every setting of the "
         "minimal-serialization threshold {None,0,1,n-1,n,n+1,100,-1}: load(serialize()), load(_serialize_full/_minimal/"
